@@ -18,7 +18,7 @@ D5 history plumbing: every connected link's four entries are inserted under its 
    four maps replace the filter's maps on the normal exit; was_weak is last pass's *final* verdict;
 D6 the shell stamps `conn.weak` from the entry with the same conn_id (default false), in the housekeeping arm only.
 """
-from .. import dtable
+from .. import dtable, roles
 from ..ctx import CONN, full_slice_element, is_call, is_field, loop_of_element, sname
 from ..expr import show, strip_old, walk
 from ..pathcond import PathA, calls_to, field_stores
@@ -86,10 +86,31 @@ class Tables:
         body = lp["body"]
         names = f.names
 
+        # locals by role (sa/roles.py): the count of connected links, the share of this link, the maps that replace the history
+        self.cc = roles.counter(ctx.w, f, "usize", 0, 1, hint="connected_count")
+        self.share = None
+        for l, loc in enumerate(f.locals):
+            if loc["ty"] != "u32":
+                continue
+            ds = [d for d in pa.fa.defs.get(l, []) if d[2] == "assign"]
+            if len(ds) == 2 and all(d[0] in body for d in ds):
+                vs = [strip_old(pa.fa.val_rvalue(d[3], (d[0], d[1]))) for d in ds]
+                if ("const", 0, "u32") in vs and any(v[0] == "cast" and any(is_call(x, name_contains="clamp") for x in walk(v)) for v in vs):
+                    self.share = l if self.share is None else -1
+        self.map_local = {}
+        for fld in MAPS:
+            st = field_stores(f, W, fld)
+            if len(st) == 1:
+                rv = st[0][2]["rv"]
+                src = rv["o"].get("p", {}).get("l") if rv["k"] == "use" and isinstance(rv["o"], dict) and not rv["o"].get("p", {}).get("proj") else None
+                if src is not None:
+                    self.map_local[fld] = roles._root(f, pa.fa, src)
+        share_l = self.share
+
         def keep(var):
             if all((s == "entry" or s == ("entry",) or s[0] not in body) for s in var[2]):
                 return True
-            return names.get(var[1]) in ("share_permille",)
+            return share_l is not None and var[1] == share_l
         self.keep = keep
         n = len(f.blocks[bb]["stmts"])
         v = dict(zip(*(lambda a: (a[4], a[3]))(pa.fa.val_operand(t["args"][1], (bb, n)))))
@@ -191,8 +212,8 @@ def _atoms(t):
         if e[0] != "cast":
             return False
         d = strip_old(e[2])
-        return d[0] == "bin" and d[1] == "Div" and d[2] == ("const", k, "u64") and d[3][0] == "cast" and t.f.names.get(d[3][2][1] if d[3][2][0] == "var" else None) == "connected_count"
-    share = lambda e: e[0] == "var" and t.f.names.get(e[1]) == "share_permille"
+        return d[0] == "bin" and d[1] == "Div" and d[2] == ("const", k, "u64") and d[3][0] == "cast" and d[3][2][0] == "var" and t.cc is not None and d[3][2][1] == t.cc
+    share = lambda e: e[0] == "var" and t.share is not None and e[1] == t.share
     A["SL"] = t.atom(lambda a: a[0] == "bin" and a[1] == "Lt" and share(a[2]) and thr(a[3], 750))
     A["SE"] = t.atom(lambda a: a[0] == "bin" and a[1] == "Lt" and share(a[2]) and thr(a[3], 250))
     s15 = t.atom(lambda a: a[0] == "bin" and a[1] == "Lt" and sat1(a[2], wstr) and a[3] == ("const", 15, "u32"))
@@ -274,10 +295,10 @@ def d1_never_weak_when_disconnected_or_idle(ctx):
     ok = C is not None and t.pa.entails(t.pc, C)
     ctx.chk.ob("D1", "a computed verdict is pushed only for a connected link", ok, "per iteration: %s" % t.pa.show(t.pc)[:200], key="D1:verdict-needs-connected")
     # ... and the bypass test failed (whole-function PC)
-    floor = pa.find(lambda a: a[0] == "bin" and a[1] == "Lt" and a[2][0] == "var" and f.names.get(a[2][1]) == "total_bps" and a[3] == ("const", 100000.0, "f64"))
-    none = pa.find(lambda a: a[0] == "bin" and a[1] == "Eq" and ("const", 0, "usize") in (a[2], a[3]) and any(x[0] == "var" and f.names.get(x[1]) == "connected_count" for x in (a[2], a[3])))
+    floor = pa.find(lambda a: a[0] == "bin" and a[1] == "Lt" and a[2][0] == "var" and f.locals[a[2][1]]["ty"] == "f64" and a[3] == ("const", 100000.0, "f64"))
+    none = pa.find(lambda a: a[0] == "bin" and a[1] == "Eq" and ("const", 0, "usize") in (a[2], a[3]) and any(x[0] == "var" and t.cc is not None and x[1] == t.cc for x in (a[2], a[3])))
     if len(floor) != 1 or len(none) != 1:
-        ctx.chk.missing("D1", "classify: bypass test atoms (total_bps < 100000.0, connected_count == 0)", "%d / %d" % (len(floor), len(none)))
+        ctx.chk.missing("D1", "classify: bypass test (<f64 sum> < 100000.0, <count of connected links> == 0)", "%d / %d" % (len(floor), len(none)))
     else:
         pcs = pa.pc_block(t.site)
         ok = pa.entails(pcs, b.AND(b.NOT(floor[0][1]), b.NOT(none[0][1])))
@@ -359,9 +380,9 @@ def d2_delay_needs_two_ticks(ctx):
                    key="D2:delay-verdict-needs-streak:%s" % (r or "computed"))
     ctx.chk.floor("D2", "delay verdict rows", n, 2)
     # stored streak
-    ins = [i for i in t.inserts.values() if any(x[0] == "var" and t.f.names.get(x[1]) == "next_delay_streak" for x in walk(i["map"])) or _is_local_map(t, i, "next_delay_streak")]
+    ins = [i for i in t.inserts.values() if _is_local_map(t, i, "delay_weak_streak")]
     if len(ins) != 1:
-        ctx.chk.missing("D2", "classify: insert into next_delay_streak", "%d" % len(ins))
+        ctx.chk.missing("D2", "classify: insert into the map that becomes self.delay_weak_streak", "%d" % len(ins))
         return
     sig = b.OR(S.must("H"), S.must("Q"))
     nosig = b.AND(S.must_not("H"), S.must_not("Q"))
@@ -379,16 +400,17 @@ def d2_delay_needs_two_ticks(ctx):
     ctx.chk.ob("D2", "stored delay streak = sat(previous + 1) while a delay signal is present, 0 the moment it clears", ok, " ; ".join(det)[:400], key="D2:delay-streak-update", loc=ins[0]["loc"])
 
 
-def _is_local_map(t, ins, name):
+def _is_local_map(t, ins, fld):
+    """The insert goes into the local map that replaces self.<fld> on the normal exit."""
     a = ins["arg0"]
-    # `&mut next_x` : the operand is a temp holding a reference to the named local
     f = t.f
-    l = a.get("l") if isinstance(a, dict) else None
-    if l is None and isinstance(a, dict) and "p" in a:
-        l = a["p"].get("l")
+    want = t.map_local.get(fld)
+    if want is None:
+        return False
+    l = a.get("p", {}).get("l") if isinstance(a, dict) else None
     seen = 0
     while l is not None and seen < 4:
-        if f.names.get(l) == name:
+        if l == want:
             return True
         ds = t.pa.fa.defs.get(l, [])
         if len(ds) != 1 or ds[0][2] != "assign" or ds[0][3]["k"] not in ("ref", "use"):
@@ -399,10 +421,10 @@ def _is_local_map(t, ins, name):
     return False
 
 
-def _insert_for(ctx, rule, t, name):
-    ins = [i for i in t.inserts.values() if _is_local_map(t, i, name)]
+def _insert_for(ctx, rule, t, fld):
+    ins = [i for i in t.inserts.values() if _is_local_map(t, i, fld)]
     if len(ins) != 1:
-        ctx.chk.missing(rule, "classify: insert into %s" % name, "%d" % len(ins))
+        ctx.chk.missing(rule, "classify: insert into the map that becomes self.%s" % fld, "%d" % len(ins))
         return None
     return ins[0]
 
@@ -430,8 +452,8 @@ def d3_probation(ctx):
         elif x[3][0] != ("const", False, "bool") and _variant(x[3][1]) not in ("HighRtt", "QueueBuilding"):
             ctx.chk.ob("D3", "verdict rows are literal", False, show(x, t.f.names)[:80], key="D3:verdict-literal")
     ctx.chk.ob("D3", "some path reports a share-weak verdict (LowShare / NoTraffic)", sw != b.FALSE, "", key="D3:share-weak-exists", nontrivial=False)
-    pi = _insert_for(ctx, "D3", t, "next_probation")
-    si = _insert_for(ctx, "D3", t, "next_weak_streak")
+    pi = _insert_for(ctx, "D3", t, "probation_ticks")
+    si = _insert_for(ctx, "D3", t, "weak_streak")
     if not pi or not si:
         return
     prob, wstr, sat1 = t.preds["prob"], t.preds["wstr"], t.preds["sat1"]
@@ -506,7 +528,7 @@ def d4_thresholds(ctx):
             ctx.chk.ob("D4", "outside probation a link with share < 250/n is not reported healthy", ok2, note, key="D4:enter-below-quarter")
     ctx.chk.floor("D4", "LowShare verdict rows", n, 1)
     # share value
-    sh = [x for a in pa.bdd.vars for x in walk(a) if x[0] == "var" and t.f.names.get(x[1]) == "share_permille"]
+    sh = [x for a in pa.bdd.vars for x in walk(a) if x[0] == "var" and t.share is not None and x[1] == t.share]
     ok = False
     if sh:
         rows = dtable.def_rows(pa, sh[0], {t.lp["switch"]})
@@ -519,7 +541,7 @@ def d4_thresholds(ctx):
             good = v[0] == "cast" and len(cl) == 1 and cl[0][2][1] == ("const", 0.0, "f64") and cl[0][2][2] == ("const", 1000.0, "f64")
             if good:
                 q = strip_old(cl[0][2][0])
-                good = q[0] == "bin" and q[1] == "Div" and q[3][0] == "var" and t.f.names.get(q[3][1]) == "total_bps" and \
+                good = q[0] == "bin" and q[1] == "Div" and q[3][0] == "var" and t.f.locals[q[3][1]]["ty"] == "f64" and _is_total(ctx, t, q[3][1]) and \
                     strip_old(q[2])[0] == "bin" and strip_old(q[2])[1] == "Mul" and ("const", 1000.0, "f64") in (strip_old(q[2])[2], strip_old(q[2])[3]) and \
                     any(is_field(y, "current_bitrate_bps") and any(z == t.link for z in walk(y)) for y in walk(q[2]))
             ok = ok and good
@@ -527,7 +549,7 @@ def d4_thresholds(ctx):
     # n = connected_count: incremented once per connected link of the whole slice
     f = t.f
     fa = t.pa.fa
-    ccl = [l for l, nme in f.names.items() if nme == "connected_count" and isinstance(l, int)]
+    ccl = [t.cc] if t.cc is not None else []
     okn = False
     if len(ccl) == 1:
         ds = fa.defs.get(ccl[0], [])
@@ -554,6 +576,12 @@ def d4_thresholds(ctx):
     ctx.chk.ob("D4", "n counts exactly the connected links of the whole slice", okn, "", key="D4:n-is-connected-count")
 
 
+def _is_total(ctx, t, l):
+    """l is the f64 sum that the bypass test compares with the 100 kbit/s floor."""
+    pa0 = ctx.pa(t.f)
+    return bool(pa0.find(lambda a: a[0] == "bin" and a[1] == "Lt" and a[2][0] == "var" and a[2][1] == l and a[3] == ("const", 100000.0, "f64")))
+
+
 def d5_history_plumbing(ctx):
     t = _need(ctx, "D5")
     if not t:
@@ -562,10 +590,13 @@ def d5_history_plumbing(ctx):
     A = _get_atoms(ctx, "D5", t, ("C",))
     if not A:
         return
-    pairs = (("next_prev_weak", "prev_weak"), ("next_delay_streak", "delay_weak_streak"), ("next_weak_streak", "weak_streak"), ("next_probation", "probation_ticks"))
+    pairs = tuple((fld, fld) for fld in MAPS)
     fa0 = ctx.fa(f)
     cfg = ctx.cfg(f)
     for loc_name, fld in pairs:
+        if fld not in t.map_local:
+            ctx.chk.ob("D5", "self.%s is replaced, on the normal exit, by the map this pass filled" % fld, False, "no whole-map store to self.%s" % fld, key="D5:map-replaced:%s" % fld)
+            continue
         ins = _insert_for(ctx, "D5", t, loc_name)
         if not ins:
             continue
@@ -579,19 +610,12 @@ def d5_history_plumbing(ctx):
             bb, si, s = st[0]
             rv = s["rv"]
             src = rv["o"].get("p", {}).get("l") if rv["k"] == "use" and isinstance(rv["o"], dict) else None
-            for _ in range(3):   # `_t = move next_x; self.x = move _t`
-                if src is None or f.names.get(src) == loc_name:
-                    break
-                ds = fa0.defs.get(src, [])
-                if len(ds) == 1 and ds[0][2] == "assign" and ds[0][3]["k"] == "use" and isinstance(ds[0][3]["o"], dict) and not ds[0][3]["o"].get("p", {}).get("proj"):
-                    src = ds[0][3]["o"].get("p", {}).get("l")
-                else:
-                    src = None
-            oks = src is not None and f.names.get(src) == loc_name and cfg.dominates(t.lp["none"], bb) and not cfg.returns_reachable_avoiding({bb}, start=t.lp["none"])
-        ctx.chk.ob("D5", "self.%s := %s on the normal exit" % (fld, loc_name), oks, "", key="D5:map-replaced:%s" % fld)
+            src = roles._root(f, fa0, src) if src is not None else None
+            oks = src is not None and src == t.map_local.get(fld) and cfg.dominates(t.lp["none"], bb) and not cfg.returns_reachable_avoiding({bb}, start=t.lp["none"])
+        ctx.chk.ob("D5", "self.%s is replaced, on the normal exit, by the map this pass filled" % fld, oks, "", key="D5:map-replaced:%s" % fld)
         ctx.WHO_WRITES("D5", W, fld, {CL}, floor=1, allow_agg_in={"<" + W + " as core::default::Default>::default"})
     # was_weak is the final verdict of the previous pass
-    ins = _insert_for(ctx, "D5", t, "next_prev_weak")
+    ins = _insert_for(ctx, "D5", t, "prev_weak")
     if ins:
         dyn = [(bb, tt, v) for (bb, tt, v) in t.pushes if bb == t.site][0]
         n = len(f.blocks[t.site]["stmts"])
